@@ -422,7 +422,29 @@ func genScenario(t *rapid.T) *Scenario {
 	env.hostile = rapid.IntRange(0, 7).Draw(t, "hostile") == 0
 	env.base = rapid.SampledFrom([]int64{0, 0, 3, 1000, big - 64}).Draw(t, "base")
 	sc.Values = rapid.SliceOfN(rapid.Custom(func(t *rapid.T) Val { return genVal(t, env) }), 1, 8).Draw(t, "values")
+	// (drawn last: everything above is, draw for draw, what it was before the
+	// Config message got its own dimension)
+	sc.Cfg = genCfgShape(t)
 	return sc
+}
+
+// genCfgShape dresses the Config message (two cases out of three): a
+// generator message that says nothing the top level does not say, and fields
+// that have nothing to do with the stream. Always the same number of draws.
+func genCfgShape(t *rapid.T) *CfgShape {
+	dressed := rapid.IntRange(0, 2).Draw(t, "cfg-dressed") != 0
+	s := &CfgShape{}
+	s.Gen = rapid.SampledFrom([]string{GenRandomEmpty, GenUnset, GenRandomMirror, GenRandomSeed, GenRandomFull, GenUnset}).Draw(t, "cfg-generator")
+	s.Port = rapid.SampledFrom([]int32{0, 0, -1, 8080, 65535, 1 << 20, math.MinInt32}).Draw(t, "cfg-port")
+	s.Creds = rapid.SampledFrom([]string{"", "", "empty", "set"}).Draw(t, "cfg-credentials")
+	s.Cert = rapid.SampledFrom([]string{"", "", "empty", "set"}).Draw(t, "cfg-cert")
+	s.ClientType = rapid.SampledFrom([]int32{0, 0, 1, 2, 3}).Draw(t, "cfg-client-type")
+	s.TunnelCrt = rapid.SampledFrom([]string{"", "", "/no/such/file.crt"}).Draw(t, "cfg-tunnel-crt")
+	s.NoTarget = rapid.IntRange(0, 5).Draw(t, "cfg-no-target") == 0
+	if !dressed {
+		return nil
+	}
+	return s
 }
 
 // ---------------------------------------------------------------------------
